@@ -556,6 +556,11 @@ impl VerifyLayout {
     /// `Valid & Unknown => Unknown`
     ///
     /// `Invalid & Anything => Invalid`
+    #[cfg_attr(kani, kani::ensures(|r: &VerifyLayout| {
+        let inv = old(self == VerifyLayout::Invalid || other == VerifyLayout::Invalid);
+        let unk = old(self == VerifyLayout::Unknown || other == VerifyLayout::Unknown);
+        if inv { *r == VerifyLayout::Invalid } else if unk { *r == VerifyLayout::Unknown } else { *r == VerifyLayout::Valid }
+    }))]
     pub fn and(self, other: VerifyLayout) -> Self {
         match self {
             VerifyLayout::Valid => other,
